@@ -80,6 +80,32 @@ def gen(rng, idx, tier, seed):
         sel = [[dn[0], MENU[a]], [dn[1], MENU[b]], [dn[2], MENU[c]]]
         # lists of unequal length are outside the documented domain
         return {'file': fs, 'sel': sel, 'menu': True}
+    if idx % 25 == 11:
+        # points (two index lists of one length) taken from a file written
+        # by other software, in which an integer variable on the two indexed
+        # dimensions has missing cells and no missing code of its own
+        fs = gen_core.gen_filespec(rng, allow_char=False)
+        big = [d for d in fs['dims'] if d[1] >= 2]
+        if len(big) >= 2:
+            d0, d1 = big[0], big[1]
+            nm = next(n for n in ('pts', 'pm', 'cnt', 'flag', 'q')
+                      if harness.zlib_crc(n) % 2 == 0)
+            fs['vars'].append({
+                'name': nm, 'dims': [d0[0], d1[0]],
+                'dtype': str(rng.choice(['i4', 'i2'])), 'kind': 'data',
+                'mask': 'random', 'fill': -999,
+                'seed': int(rng.integers(1 << 30)), 'attrs': []})
+            n = int(rng.integers(1, 6))
+            l0 = [int(x) for x in rng.integers(0, d0[1], n)]
+            l1 = [int(x) for x in rng.integers(0, d1[1], n)]
+            # (one of the points is a missing cell, where there is one)
+            mk = np.argwhere(gen_core.maskfor(fs['vars'][-1]['seed'],
+                                              (d0[1], d1[1]), 'random'))
+            if len(mk):
+                l0[0], l1[0] = int(mk[0][0]), int(mk[0][1])
+            sel = [[d0[0], {'l': l0}], [d1[0], {'l': l1}]]
+            return {'file': fs, 'sel': sel, 'disk': True,
+                    'foreign': 'always', 'as_array': bool(rng.random() < .3)}
     if idx % 10 == 7:
         # the receiver is what a library reader returns for a valid image;
         # the selection is drawn from its dimensions once it is open
@@ -217,7 +243,9 @@ def run_file(spec, res, d, h, f, ioapi):
         f.variables[k0].var_desc = 'free text about the variable'.ljust(80)
         res.facet('ioapi:custom-long_name')
     if spec.get('disk'):
-        g = harness.to_disk(f, d, h, res=res, foreign=True, fmt='ioapi' if ioapi else 'netcdf')
+        g = harness.to_disk(f, d, h, res=res,
+                            foreign=spec.get('foreign', True),
+                            fmt='ioapi' if ioapi else 'netcdf')
         if g is not None:
             f = g
             res.facet('source:disk')
